@@ -60,6 +60,7 @@ func runC14(c *Ctx) {
 	}
 	_ = sess()
 	time.Sleep(50 * time.Millisecond) // let the RegisterTM exchange of the session finish
+	runC14Early(c, coord)
 
 	var cases []*c14Case
 	mk := func(id string, n int, evs []string, drops bool) {
@@ -588,4 +589,104 @@ func settledFutures() int {
 		f, _ = sgetty.VerifPendingFutures()
 	}
 	return f
+}
+
+// ---- shortly after start-up: thirty requests are in flight (their numbers are the first the client hands
+// out) when further sessions open and the client announces itself on each of them. Every message the client
+// numbers — requests and announcements alike — shares one table of pending futures: each caller must get the
+// reply to ITS request.
+func runC14Early(c *Ctx, coord *Coord) {
+	cid := "early-1"
+	if !c.Want(cid) {
+		return
+	}
+	const n = 30
+	release := make(chan struct{})
+	coord.Script = func(s *FakeSession, kind string, m message.RpcMessage) Action {
+		if b, ok := m.Body.(message.GlobalStatusRequest); ok && strings.HasPrefix(b.Xid, "early-") {
+			<-release
+			return Action{Body: message.GlobalStatusResponse{AbstractGlobalEndResponse: message.AbstractGlobalEndResponse{
+				AbstractTransactionResponse: okHead(), GlobalStatus: message.GlobalStatus(1 + len(b.Xid)%3)}}}
+		}
+		return Action{}
+	}
+	type res struct {
+		ok   bool
+		what string
+	}
+	results := make([]res, n)
+	var wg sync.WaitGroup
+	for k := 0; k < n; k++ {
+		wg.Add(1)
+		go func(k int) {
+			defer wg.Done()
+			xid := fmt.Sprintf("early-%s", strings.Repeat("x", k%3))
+			pn := safeCall(func() {
+				r, err := sgetty.GetGettyRemotingClient().SendSyncRequest(message.GlobalStatusRequest{AbstractGlobalEndRequest: message.AbstractGlobalEndRequest{Xid: xid}})
+				switch rr := r.(type) {
+				case message.GlobalStatusResponse:
+					if rr.GlobalStatus == message.GlobalStatus(1+len(xid)%3) {
+						results[k] = res{true, ""}
+					} else {
+						results[k] = res{false, fmt.Sprintf("the reply to another request (status %d)", rr.GlobalStatus)}
+					}
+				default:
+					results[k] = res{false, fmt.Sprintf("got %T / %v", r, err)}
+				}
+			})
+			if pn != "" {
+				results[k] = res{false, "crash: " + pn}
+			}
+		}(k)
+	}
+	// all thirty are with the coordinator now
+	coord.WaitFor(2*time.Second, func(l []LoggedReq) bool {
+		k := 0
+		for _, e := range l {
+			if e.Kind == "GlobalStatus" && strings.HasPrefix(e.Xid, "early-") {
+				k++
+			}
+		}
+		return k >= n
+	})
+	var opened []*FakeSession
+	for k := 0; k < 12; k++ {
+		opened = append(opened, coord.OpenSessionAt(fmt.Sprintf("10.14.0.%d:8091", k+1)))
+	}
+	time.Sleep(100 * time.Millisecond)
+	close(release)
+	done := make(chan struct{})
+	go func() { wg.Wait(); close(done) }()
+	timedOut := false
+	select {
+	case <-done:
+	case <-time.After(8 * time.Second):
+		timedOut = true
+	}
+	coord.Script = nil
+	bad := 0
+	detail := ""
+	for k, r := range results {
+		if !r.ok {
+			bad++
+			if detail == "" {
+				detail = fmt.Sprintf("request %d: %s", k, r.what)
+				if r.what == "" {
+					detail = fmt.Sprintf("request %d: still waiting after its reply was sent", k)
+				}
+			}
+		}
+	}
+	c.Out.Case(cid, "C14", "skip", "skip")
+	c.Out.Oracle(cid, bad == 0 && !timedOut, "own_reply", fmt.Sprintf("%d of %d requests did not get their own reply (%s) while 12 sessions opened", bad, n, detail))
+	c.Out.Tag(cid, "nontrivial=1")
+	c.Out.Count("early.sessions-open-during-requests")
+	for _, s := range opened {
+		s.CloseFromPeer()
+	}
+	if timedOut {
+		// the callers still waiting will give up at the request timeout; do not let them disturb what follows
+		<-done
+	}
+	coord.ResetLog()
 }
